@@ -194,6 +194,18 @@ def parse_snap(line):
     return {"n": n, "r": int(head.get("r", n)), "nodes": nodes}
 
 
+def split_root(lines):
+    """-> (lines of the statements, events during the final RootHandle::dispose, its status 'ok' / 'panic <class>') ; (lines, None, None)
+    if the driver printed no such block"""
+    if "rootdispose" in lines:
+        i = len(lines) - 1 - lines[::-1].index("rootdispose")
+        tail = lines[i + 1:]
+        if tail and tail[-1].startswith("rootdisposed "):
+            status = tail[-1][len("rootdisposed "):]
+            return lines[:i], tail[:-1], status
+    return lines, None, None
+
+
 def split_steps(lines):
     """group observation lines per top-level statement: list of {"events": [...], "snap": dict|None, "panic": str|None}"""
     steps = []
